@@ -173,6 +173,9 @@ pub fn catch<T>(f: impl FnOnce() -> T) -> Result<T, String> {
 
 /// Silence the default panic message (we catch and report panics ourselves).
 pub fn quiet_panics() {
+    if std::env::var("CVH_SHOW_PANICS").is_ok() {
+        return;
+    }
     std::panic::set_hook(Box::new(|_| {}));
 }
 
